@@ -653,6 +653,18 @@ def run(rep, tier):
             rep.violated("R-CFGX", "", l, "configuration parses and every dispatch macro resolves to a declared function",
                          e.strip().splitlines()[-3:] and " | ".join(e.strip().splitlines()[-3:]), file=EC_H, unit=l)
     rep.floor("EC configurations compiled", len(res), 14 if tier == "quick" else 960)
+    # negative witness: every table type is dimensioned with the *fixed-point* window macro, and the unknown-point multipliers
+    # fill them according to their own window.  A configuration whose unknown-point window is wider must be refused by the
+    # header (a 7-entry on-stack table would be filled with 15 points), i.e. must not compile.
+    wide = [common.ecdsa_unit("ecdsa:unkpt-win4:fxp-win3", ("EC_USE_PROJECTIVE=1", "EC_PF_FXP_MULT_WIN_BITS=3", "EC_PF_UNKPT_MULT_WIN_BITS=4",
+                                                             "EC_PF_UNKPT_MULT_ALGO=EC_PF_UNKPT_MULT_ALGO_COMB_1T"))]
+    for (l, ok, e) in driver.syntax_only(wide):
+        desc = "a configuration with EC_PF_UNKPT_MULT_WIN_BITS > EC_PF_FXP_MULT_WIN_BITS is rejected at compile time"
+        if ok:
+            rep.violated("R-CFGX", "", "window-mismatch-refused", desc, "it compiles: ec_pt_unkpt_mult_data_t has (1 << 3) - 1 = 7 entries and "
+                         "ec_point_unknown_pt_mult precomputes (1 << 4) - 1 = 15 points into it (stack buffer overflow)", file=EC_H, unit=l)
+        else:
+            rep.proved("R-CFGX", "", "window-mismatch-refused", desc, "compilation stops: " + (e.strip().splitlines()[-1][:100] if e.strip() else ""), file=EC_H, unit=l)
     # (b) body analysis
     acfgs = analysed_configs(tier)
     aspecs = [spec_of(c) for c in acfgs]
